@@ -288,7 +288,11 @@ func verifC19Run(c VerifC19Case) *vkit.Outcome {
 			}
 		}
 		if !o.Failed() && last.Err == nil {
-			if c19.GaveUp(last, 200) {
+			if st := last.Reqs[len(last.Reqs)-1].Status; c19.GaveUp(last, 200) && st != 400 && st != 413 {
+				// out() reported success although the last request was answered with a RETRYABLE status:
+				// the batch would be committed without having been accepted and without a retry
+				o.Failf(c19.P, "es:retryable-failure-reported-as-success", "batch %d: out() returned nil although its last request was answered %d (retryable); statuses of the attempt: %v", bi, st, c19Statuses(last))
+			} else if c19.GaveUp(last, 200) {
 				// 400, or 413 for a request that cannot be split further (or split_batch off):
 				// the plugin documents these as non-retryable and drops the batch.
 				o.Class("gave-up-non-retryable")
@@ -331,4 +335,12 @@ func TestVerifC19Elasticsearch(t *testing.T) {
 	verifC19Setup()
 	defer verifC19Teardown()
 	verifC19Prop.Check(t)
+}
+
+func c19Statuses(att c19.Attempt) []int {
+	var st []int
+	for _, rq := range att.Reqs {
+		st = append(st, rq.Status)
+	}
+	return st
 }
